@@ -214,7 +214,7 @@ class C17(Check):
                 yield {"part": "tamper", "where": where, "root": spelling}
         # a directory that was real when a long-lived handle first used it is later replaced by a symlink
         for spelling in ("direct", "symlink"):
-            for sub in ("data", "x", "metadata/manifests", "metadata"):
+            for sub in ("data", "x", "metadata/manifests", "metadata", ".locks", "metadata/inflight"):
                 yield {"part": "swap", "sub": sub, "root": spelling}
         # S3 backend: every request must stay under the table's key prefix
         for prefix in ("wh/t", "t", "deep/er/wh/t"):
@@ -363,6 +363,18 @@ class C17(Check):
                                   f"{name}({rel!r}) returned although '{sub}' now points outside the table", wit)
                     return
                 res.count("escaping_rejected")
+            # a whole commit through the long-lived handle (lock file, markers, data, manifests, metadata, pointer)
+            for label, fn in (("table.append_records", lambda _x: t.append_records(tables.rows([4242]))),
+                              ("table.garbage_collect", lambda _x: t.garbage_collect(0))):
+                out, bad, any_ev = self._call(arena, fn, None)
+                res.count("calls")
+                res.evals += 1
+                res.key(["swap", sub, label])
+                if bad:
+                    res.violation(f"outside-access-after-symlink-swap:{label}",
+                                  f"{label} through a long-lived handle touched {bad[0]} after '{sub}' became a symlink",
+                                  {"entry_point": label, "root": case["root"], "swapped_dir": sub, "outcome": out, "outside_effects": bad[:5]})
+                    return
             if len(res.samples) < 1:
                 res.sample({"part": "swap", "directory_replaced_by_symlink": sub, "path": rel, "entry_points": len(eps)})
 
